@@ -471,6 +471,7 @@ fn drive_sound<T: Transport>(t: T, p: &CmdParams, rng: &mut SmallRng) -> String 
     let mut s = match VirtIOSound::<LedgerHal, T>::new(t) { Ok(d) => d, Err(e) => return format!("{:?}", e) };
     let errs = [0x8001u32, 0x8002, 0x8003, 0];
     let mut nb: Vec<u16> = vec![];
+    let mut had_long = false;
     let mut period: [usize; 2] = [0, 0];
     for _ in 0..p.ops {
         let sid: u32 = rng.gen_range(0..2);
@@ -499,8 +500,17 @@ fn drive_sound<T: Transport>(t: T, p: &CmdParams, rng: &mut SmallRng) -> String 
                 let per = period[sid as usize];
                 // mostly up to 12 periods, sometimes more than the transmit queue has slots (the
                 // driver's bookkeeping ring is reused) - up to 80
-                let periods = if rng.gen_bool(0.25) && per <= 512 { rng.gen_range(33..=80) } else { rng.gen_range(1..=12) };
-                let n = if per == 0 { 10 } else { per * periods + if rng.gen_bool(0.3) { rng.gen_range(0..per) } else { 0 } };
+                let ring_full_first = p.policy == "late" && !std::mem::replace(&mut had_long, true) && per != 0 && per <= 512;
+                let periods = if ring_full_first {
+                    // the first transfer to a late device is exactly one ring-ful
+                    32
+                } else if rng.gen_bool(if p.policy == "late" { 0.5 } else { 0.25 }) && per <= 512 {
+                    // (exactly one or two ring-fuls as often as anything in between)
+                    match rng.gen_range(0..4) { 0 => 32, 1 => [31, 64, 96][rng.gen_range(0..3)], _ => rng.gen_range(33..=80) }
+                } else {
+                    rng.gen_range(1..=12)
+                };
+                let n = if per == 0 { 10 } else { per * periods + if !ring_full_first && rng.gen_bool(0.3) { rng.gen_range(0..per) } else { 0 } };
                 let start: u8 = rng.r#gen();
                 let frames: Vec<u8> = (0..std::cmp::max(n, 1)).map(|i| start.wrapping_add((i as u8).wrapping_mul(7))).collect();
                 let chunks = if per == 0 { 1 } else { frames.len().div_ceil(per) };
@@ -607,6 +617,11 @@ pub fn run(p: &CmdParams, sc: &str) -> (Vec<Vec<String>>, Value) {
                          streams: 2, jacks: 2, chmaps: 1, ooo: p.kind == "soundooo" };
     engine::install(Box::new(pers), policy_of(&p.policy), p.seed ^ 0x20, true);
     if zoo_kind == "sound" {
+        // a late sound device is, every other time, later than the transmit ring is long: the
+        // driver fills all 32 slots before the first period completes
+        if p.seed % 2 == 0 {
+            engine::set_lateness(40);
+        }
         with_engine(|e| {
             e.core.hold_only = Some(2);
             if p.kind == "soundooo" {
